@@ -32,6 +32,8 @@ probes after every request).
 import AutosarVerif.Lemmas.WorldOps
 import AutosarVerif.Lemmas.Reachable
 import AutosarVerif.Lemmas.IndexReach
+import AutosarVerif.Lemmas.StepX
+import AutosarVerif.Lemmas.Iter
 
 namespace AV.C03
 open AV.W AV.W.Items
@@ -71,6 +73,44 @@ theorem C03_every_reachable_state_is_a_tree (S : Spec) (V : Env) (rootAttrs : Li
 
 theorem C03_core_step_keeps_tree (S : Spec) (V : Env) (rootAttrs : List (Nat × CDv)) (w : World) (op : Op) (h : Inv w) :
     Inv (applyOp S V rootAttrs w op).1 := applyOp_inv S V rootAttrs w op h
+
+/-- … and for the LARGER alphabet (`OpX`: + `set_item_name`, `set_reference_target`, `sort`): every state reachable by a guarded history
+is a well-formed tree; without `set_reference_target` no guard is needed -/
+theorem C03_every_reachable_state_is_a_tree_larger_alphabet (S : Spec) (V : Env) (vOk : Nat) (rootAttrs : List (Nat × CDv))
+    (hH : IdxHyp S V vOk) (hR : RefWF S) (hv32 : vOk &&& 0xFFFFFFFF = vOk) (ops : List OpX)
+    (hops : ∀ op ∈ ops, OpXOk S vOk op) : (runX S V rootAttrs ops).wf :=
+  (runX_inv S V vOk rootAttrs hH hR hv32 ops hops).1
+theorem C03_every_reachable_state_is_a_tree_renames_and_sorts (S : Spec) (V : Env) (rootAttrs : List (Nat × CDv)) (ops : List OpX)
+    (hops : ∀ op ∈ ops, op.noSetRef) : (runX S V rootAttrs ops).wf := (runX_inv_noSetRef S V rootAttrs ops hops).1
+
+/-! ### the depth-first iterators enumerate exactly this tree in document order
+
+`Model/Iter.lean` models `ElementsDfsIterator` (explicit stack of elements and of content positions, `next`, `next_sibling`),
+`ArxmlFileElementsDfsIterator` and `ElementsIterator` as the state machines of `iterators.rs`; the driver answers the requests
+`dfs`, `dfsf`, `subs` with them and the answers are compared with the library on every run. -/
+
+/-- element-scoped iteration with depth limit `max` (0 = none) = the recursive preorder that descends while `max = 0 ∨ max > depth`;
+the loop fuel of the model is never exhausted and the position stack is never indexed out of range -/
+theorem C03_dfs_iterator_is_preorder (e : Hdr × Items) (max : Nat) : dfsAll e max = preDElem max 0 e := dfsAll_eq e max
+theorem C03_dfs_iterator_lists_the_tree (h : Hdr) (k : Items) : (dfsAll (h, k) 0).map (·.2) = (Items.elem h k .nil).ids :=
+  dfsAll_ids h k
+theorem C03_dfs_iterator_with_limit (h : Hdr) (k : Items) (max : Nat) : dfsAll (h, k) max =
+    (((Items.elem h k .nil).preorder 0).filter (fun x => decide (max = 0 ∨ x.1 ≤ max))).map (fun x => (x.1, x.2.1.id)) :=
+  dfsAll_limit h k max
+theorem C03_dfs_iterator_never_out_of_range {it : DfsIt} (hg : DfsGood it) : it.step ≠ .oob := hg.step_ne_oob
+/-- file-scoped iteration = preorder of the view of the file (the elements whose effective file set contains the file) -/
+theorem C03_file_iterator_lists_the_view (m : Model) (f max : Nat) (hf : f ∈ m.rootHdr.files) :
+    dfsFileAll f (m.rootHdr, m.rootKids) max = preD max 0 (m.view f) := dfsFileAll_model_eq m f max hf
+theorem C03_file_iterator_membership (m : Model) (f t : Nat) (c : List (Hdr × Items)) (hf : f ∈ m.rootHdr.files) (hm : m.filesOk)
+    (hn : m.rootItems.ids.Nodup) (hc : m.rootItems.chain t = some c) :
+    t ∈ (dfsFileAll f (m.rootHdr, m.rootKids) 0).map (·.2) ↔ f ∈ effective c := mem_dfsFileAll_iff m f t c hf hm hn hc
+/-- `sub_elements()` lists the child elements in order (ids pairwise different, as in every reachable state) -/
+theorem C03_sub_elements_iterator (kids : Items) (h : kids.ids.Nodup) : subsAll kids = kids.childElems.map (·.1.id) :=
+  subsAll_eq_of_nodup kids h
+/-- … and the hypothesis is needed: of two child elements with the same id the second is passed over -/
+theorem C03_sub_elements_iterator_needs_distinct_ids :
+    subsAll (.elem (IterEx.hdr 1 []) .nil (.text (.str []) (.elem (IterEx.hdr 1 []) .nil (.elem (IterEx.hdr 2 []) .nil .nil)))) = [1, 2] :=
+  IterEx.subsAll_adjacent_dup
 
 /-- in every reachable state of a guarded history no element is shared: ids are pairwise different in every model -/
 theorem C03_no_element_shared_reachable (S : Spec) (V : Env) (vOk : Nat) (rootAttrs : List (Nat × CDv)) (hH : IdxHyp S V vOk)
